@@ -759,6 +759,13 @@ class C06(Prop):
             # inputs that mix both versions
             yield ("auto", ["auto " + hx(SIG + b), "v2 " + hx(SIG + b), "v1b " + hx(SIG + b)])
             yield ("auto", ["auto " + hx(b"PROXY UNKNOWN\r\n" + b), "v2 " + hx(b"PROXY UNKNOWN\r\n" + b), "v1b " + hx(b"PROXY UNKNOWN\r\n" + b)])
+            if len(b) % 16 == 0:
+                # buffers whose total size sits around a multiple of 65 536 (16-bit arithmetic on sizes wraps there)
+                sel = len(b) // 16
+                d = (-2, -1, 0, 1, 2, 11, 12, 13, 15, 16, 17, 27, 28, 29, 40)[sel % 15]
+                total = 65536 * (1 + sel % 2) + d + (16 if sel % 3 else 0)
+                x = expr(b, "fill:%d:%02x" % (total - len(b), len(b) % 251))
+                yield ("auto", ["auto " + x, "v2 " + x, "v1b " + x])
 
     def classify(self, case, line):
         return case.split(" ")[0] + " " + line.split(" ")[0] + " " + cls3(line)
